@@ -1144,6 +1144,7 @@ def unpack_named_tuple(spec: ValueSpec) -> Expression:
                     "item" if defaults else f"{spec.expression}[{idx}]"
                 ),
                 could_be_none=True,
+                owner=spec.type,
             )
         )
         unpackers.append(unpacker)
